@@ -175,8 +175,13 @@ def run_case(cfg):
             if tn in held and rng.random() < 0.75:
                 t = held.pop(tn); ended += 1
                 if cfg["grow"] and ended > cfg.get("grow_after", 0) and rng.random() < 0.5:
-                    with t.hyperparameters.name_scope("late"):
-                        gen_space(random.Random(late_seed), t.hyperparameters)
+                    # cfg["grow_variants"]: different trials discover different sub-spaces (`if model == ...` branches of a build function)
+                    kvar = int(t.trial_id) % 3 if cfg.get("grow_variants") else None
+                    with t.hyperparameters.name_scope("late" if kvar is None else "late%d" % kvar):
+                        gen_space(random.Random(late_seed + (kvar or 0)), t.hyperparameters)
+                    grown_now = True
+                else:
+                    grown_now = False
                 x = rng.random()
                 try:
                     if x < 0.75:
@@ -188,6 +193,11 @@ def run_case(cfg):
                     lc._release(o)
                     if not (isinstance(e, RuntimeError) and "consecutive" in str(e)):
                         bad = ("exception", "end_trial raised %s: %s" % (type(e).__name__, str(e)[:150])); break
+                if grown_now:
+                    # what a trial discovered is part of the search space from then on (default tune_new_entries / allow_new_entries)
+                    lost = [h.name for h in t.hyperparameters.space if not o.hyperparameters._exists(h.name, h.conditions)]
+                    if lost:
+                        bad = ("discovery-lost", "trial %s of the %s oracle declared %r; after its end_trial the oracle's space does not contain them" % (t.trial_id, k, lost[:4])); break
             else:
                 try:
                     t = o.create_trial(tn)
@@ -210,6 +220,7 @@ def gen(rng):
     cfg["nsteps"] = rng.randint(10, 40)
     cfg["grow_after"] = rng.choice([0, 0, 1, 3, 6])
     cfg["shared"] = rng.random() < 0.2
+    cfg["grow_variants"] = rng.random() < 0.5
     if rng.random() < 0.25:
         # values carried over from trials issued before the space grew: Hyperband promotions, retries, Bayesian/grid successors
         cfg["kind"] = rng.choice(["hyperband", "hyperband", "grid", "random"]); cfg["grow"] = True; cfg["grow_after"] = rng.randint(2, 10)
